@@ -146,6 +146,9 @@ def check_case(spec, res):
         dclasses = [(f"{spec['dmod']}.{n}", getattr(mod, n)) for n in ("Thing", "Sub", "Other", "Root") if hasattr(mod, n)]
         if hasattr(mod, "Root"):
             lazy_mod = spec["dmod"] + ".extra"
+        # a subclass of a class of that module that is defined *elsewhere*: the documented test only looks at classes of
+        # the module itself, whatever was asked (and resolved) before - it comes last, after the module's own classes
+        dclasses.append(("Outside(Thing)", type("OutsideThing", (mod.Thing,), {"__module__": "vfcase_elsewhere"})))
 
     def per_type(classes):
         for tx, A, N, o, o2 in built:
@@ -213,7 +216,9 @@ def check_case(spec, res):
                                   acceptable="the method runs" if exp else "no applicable method")
             # l2 transitivity (closed meanings only)
             if _closed(tx):
-                allc = classes
+                # (a deferred type only admits classes of its own module - by its documented meaning it is not closed
+                # under subclasses defined elsewhere)
+                allc = [(n_, c_) for n_, c_ in classes if not ("Df" in hs and getattr(c_, "__module__", "") == "vfcase_elsewhere")]
                 for an, a in allc:
                     for bn, b in allc:
                         if a is not b and issubclass(a, b) and got_cache[bn] is True:
